@@ -44,6 +44,34 @@ func CheckCall(sc *Scenario, v *CallView, rs RuleSet, em int) []Violation {
 		break
 	}
 	specs := SpecsForView(v, rs, em)
+	c.mu.Lock()
+	preset := c.TagAtEntry
+	c.mu.Unlock()
+	if preset && HasTag(c.Method) {
+		// The caller's Stag was still raised from an earlier call.  What a call owes then is not spelled out
+		// (run nothing? run one rule?), except for this: once a rule of *this* call has set the tag, no further
+		// rule starts.
+		specs = []Spec{{NoJudge: true, Why: "the stop tag was already raised when the call began"}}
+		if !panicked && len(v.Execs) > 0 {
+			xs := append([]*Exec(nil), v.Execs...)
+			sort.SliceStable(xs, func(i, j int) bool { return xs[i].First < xs[j].First })
+			var setter *Exec
+			for _, x := range xs {
+				if x.StopSet && (setter == nil || x.Last < setter.Last) {
+					setter = x
+				}
+			}
+			sorted := c.Method != MMixStopTag
+			if setter != nil && (sorted || setter == xs[0]) {
+				for _, x := range xs {
+					if x != setter && x.First > setter.Last {
+						add("ran-after-stop", "tag-kept-raised", fmt.Sprintf("%s: rule %d set the stop tag (it was still raised from an earlier call) and rule %d started afterwards", c, setter.Rule, x.Rule))
+						break
+					}
+				}
+			}
+		}
+	}
 	noJudge := len(specs) > 0 && specs[0].NoJudge
 	if !panicked {
 		out = append(out, CheckAgainstSpecs(v, specs, rs)...)
@@ -155,6 +183,10 @@ func CheckCall(sc *Scenario, v *CallView, rs RuleSet, em int) []Violation {
 				}
 			}
 			if e.Kind == EvAlias && (e.C == 4 || e.C&8 != 0) {
+				continue
+			}
+			if e.Kind == EvAlias && e.C == 16 {
+				add("foreign-request-data", "api-entry", fmt.Sprintf("%s: rule %d found a value in the by-value api entry QA that is neither the constructor's nor assigned by this request", c, x.Rule))
 				continue
 			}
 			if e.Kind == EvAlias && e.C&2 != 0 {
